@@ -262,6 +262,15 @@ func (c *Ctx) exec(fn *ssa.Function, args []Val, st0 *State, reach0 string, dept
 				c.loopBack(fr, fr.loops[to.Index], s, cond, pos)
 				return
 			}
+			if fr.isRoot {
+				for _, li := range fr.loops {
+					if li.blocks[from.Index] && !li.blocks[to.Index] && from.Index != li.header {
+						if sp := c.loopSpec(li); sp != nil && sp.CutExits {
+							c.loopExitCut(fr, li, s, cond, pos)
+						}
+					}
+				}
+			}
 			in[to.Index] = append(in[to.Index], edge{s, cond, from.Index})
 		}
 		for _, ins := range b.Instrs {
@@ -395,6 +404,56 @@ func (c *Ctx) loopSpec(li *loopInfo) *LoopSpec {
 	return c.contract.Loops[li.ordinal]
 }
 
+// loopExitCut cuts an exit edge that leaves the loop from inside its body (break): the invariants (and the loop frame) are
+// checked in the state of the edge, then the heap effects of the loop are forgotten and the invariants assumed, exactly as
+// at the loop head. Locals keep their values. Sound (the continuation is verified from a weaker state); it shortens the
+// proof context of everything after the loop to "invariant + exit", like a normal exit through the head.
+func (c *Ctx) loopExitCut(fr *Frame, li *loopInfo, st *State, reach string, pos token.Pos) {
+	spec := c.loopSpec(li)
+	if li.stmt != nil {
+		pos = li.stmt.Pos()
+	}
+	env := c.contractEnvLocal(fr, st)
+	c.ordinal["cut|"+fmt.Sprint(li.ordinal)]++
+	nth := c.ordinal["cut|"+fmt.Sprint(li.ordinal)]
+	for k, inv := range spec.Invs {
+		f := c.evalBool(env, inv.Expr, inv.Text)
+		if cj := splitDeep(f); len(cj) > 1 && len(cj) <= 40 {
+			for j, g := range cj {
+				c.oblige("inv-exit", fmt.Sprintf("loop%d.%d/%d.%d", li.ordinal, nth, k, j), reach, g, pos, fmt.Sprintf("conjunct %d of: %s", j, inv.Text))
+			}
+			continue
+		}
+		c.oblige("inv-exit", fmt.Sprintf("loop%d.%d/%d", li.ordinal, nth, k), reach, f, pos, inv.Text)
+	}
+	eff := newEffects()
+	c.regionEffects(eff, fr.fn, li.blocks, 0)
+	hasFrame := c.contract != nil && c.contract.HasMod && !eff.all
+	if hasFrame {
+		c.frameTop = c.loopTop[li.header]
+		c.frameLocals = true
+		c.groupedFrame("inv-exit", fmt.Sprintf("loop%d.%d/frame:", li.ordinal, nth), c.contract, paramNames(fr.fn), c.entryArgs, st, reach, pos, "loop exit preserves the frame", true)
+		c.frameLocals = false
+	}
+	for _, m := range eff.mat {
+		m(c, st)
+	}
+	c.touchAll(st)
+	before := st.clone()
+	c.havocEffects(st, eff, reach)
+	if hasFrame {
+		c.frameTop = c.loopTop[li.header]
+		c.skipFrameInit = true
+		c.loopFrameHavoc(c.contract, paramNames(fr.fn), c.entryArgs, before, st, reach, pos, li.ordinal, loopAllocKeys(fr.fn, li.blocks))
+		c.skipFrameInit = false
+	}
+	env = c.contractEnvLocal(fr, st)
+	for _, inv := range spec.Invs {
+		c.assume(reach, c.evalBool(env, inv.Expr, inv.Text))
+	}
+	c.notes["loop-exit-cut"]++
+}
+
 func (c *Ctx) loopHead(fr *Frame, li *loopInfo, b *ssa.BasicBlock, st *State, reach string) {
 	c.notes["loops"]++
 	spec := c.loopSpec(li)
@@ -413,6 +472,12 @@ func (c *Ctx) loopHead(fr *Frame, li *loopInfo, b *ssa.BasicBlock, st *State, re
 	if spec != nil {
 		for k, inv := range spec.Invs {
 			f := c.evalBool(env, inv.Expr, inv.Text)
+			if cj := splitDeep(f); len(cj) > 1 && len(cj) <= 40 {
+				for j, g := range cj {
+					c.oblige("inv-init", fmt.Sprintf("loop%d/%d.%d", li.ordinal, k, j), reach, g, pos, fmt.Sprintf("conjunct %d of: %s", j, inv.Text))
+				}
+				continue
+			}
 			c.oblige("inv-init", fmt.Sprintf("loop%d/%d", li.ordinal, k), reach, f, pos, inv.Text)
 		}
 	}
@@ -457,7 +522,7 @@ func (c *Ctx) loopHead(fr *Frame, li *loopInfo, b *ssa.BasicBlock, st *State, re
 		c.loopTop = map[int]string{}
 	}
 	c.loopTop[li.header] = c.top
-	if fr.isRoot && c.contract != nil && c.contract.HasMod && !c.contract.Pure && !eff.all {
+	if fr.isRoot && c.contract != nil && c.contract.HasMod && !eff.all {
 		c.frameTop = c.top
 		c.loopFrameHavoc(c.contract, paramNames(fr.fn), c.entryArgs, before, st, reach, pos, li.ordinal, loopAllocKeys(fr.fn, li.blocks))
 	}
@@ -663,6 +728,12 @@ func (c *Ctx) loopBack(fr *Frame, li *loopInfo, st *State, reach string, pos tok
 	if spec != nil {
 		for k, inv := range spec.Invs {
 			f := c.evalBool(env, inv.Expr, inv.Text)
+			if cj := splitDeep(f); len(cj) > 1 && len(cj) <= 40 {
+				for j, g := range cj {
+					c.oblige("inv-pres", fmt.Sprintf("loop%d/%d.%d", li.ordinal, k, j), reach, g, pos, fmt.Sprintf("conjunct %d of: %s", j, inv.Text))
+				}
+				continue
+			}
 			c.oblige("inv-pres", fmt.Sprintf("loop%d/%d", li.ordinal, k), reach, f, pos, inv.Text)
 		}
 		if len(spec.Decr) > 0 {
@@ -673,10 +744,12 @@ func (c *Ctx) loopBack(fr *Frame, li *loopInfo, st *State, reach string, pos tok
 			c.oblige("variant", fmt.Sprintf("loop%d", li.ordinal), reach, lexLess(now, li.variant), pos, "decreases "+li.varText)
 		}
 	}
-	if fr.isRoot && c.contract != nil && c.contract.HasMod && !c.contract.Pure {
+	if fr.isRoot && c.contract != nil && c.contract.HasMod {
 		names := paramNames(fr.fn)
 		c.frameTop = c.loopTop[li.header]
+		c.frameLocals = true
 		c.groupedFrame("inv-pres", fmt.Sprintf("loop%d/frame:", li.ordinal), c.contract, names, c.entryArgs, st, reach, pos, "loop preserves the frame", true)
+		c.frameLocals = false
 	}
 	for _, cd := range c.hcands[li.header] {
 		v := c.load(st, PtrV{Kind: 0, Alloc: cd.a, Elem: cd.a.Type().(*types.Pointer).Elem()}).(Sc).T
